@@ -113,7 +113,13 @@ def round_trips(ck, impls, rng, n):
                 if impl == "py_jit_array":
                     ga, gb = getattr(cp, a), getattr(cp, b)
                     for (f, g, tag) in ((ga, gb, a + ">" + b), (gb, ga, b + ">" + a)):
-                        y = g(f(xs, *args), *args)
+                        xs_keep = xs.copy()
+                        mid = f(xs, *args)
+                        if not np.array_equal(xs, xs_keep) or np.shares_memory(np.asarray(mid), xs):
+                            ck.violation({"clause": "inputs_unmodified", "pair": tag, "impl": impl}, "%s (array form) changed / returned the caller's array" % tag.split(">")[0], {"pair": tag})
+                            xs = xs_keep.copy()
+                            mid = f(xs_keep.copy(), *args)
+                        y = g(mid, *args)
                         e = np.abs(y / xs - 1.0) / ULP
                         i = int(np.argmax(e))
                         ck.case((tag, impl, args), True)
